@@ -28,7 +28,8 @@ check("C02",
       "<=3 records, four buffer sizes) against the C02 clauses and the refinement of the insert-only KVMap; every "
       "(state, action) pair of those graphs is then executed on real UKVFile / Collection objects and the observable "
       "state (public keys/get of every handle - read through every equivalent public form: get / [], items(), values(), "
-      "iteration, `in`, len; put / []=; open / `with`; explicit flush() - + an independent parse of the file bytes) must equal "
+      "iteration, `in`, len; put / []=; open / `with`; explicit flush(); sessions left normally or with the caller's exception "
+      "propagating out of the with block - + an independent parse of the file bytes) must equal "
       "the model's after each call.  Direction B: seeded random histories (150-300 calls, 12 keys of 1..256 bytes incl. binary, values of "
       "0..70 kB, 3 handles, pickled handles) on real UKVFile objects are validated event by event by TLC against UKVFile.tla "
       "(outcome, key listing, returned value, file size); the same for seeded random histories on several long-lived "
@@ -44,7 +45,8 @@ check("C03",
       "(key lengths 1..255, values 0..70 kB) are recorded by a stream wrapper, EVERY byte offset (small sessions) or "
       "every offset within 6 bytes of a structural boundary (large ones) is materialised as a crash image, four real "
       "recovery histories (UKVFile r, a+new key, a+torn key, Collection reading; plus a second crash at every byte of the "
-      "recovery put) are executed on it and each event trace is validated by TLC against UKVCrash.",
+      "recovery put, the bytes written IN PLACE over whatever the first crash left) are executed on it and each event trace is "
+      "validated by TLC against UKVCrash.",
       "assumes a crash leaves a prefix of the session's logical byte stream and an intact file header; trusted: TLC, "
       "the stream wrapper, the harness's struct parser (only used for the header length)",
       "TLA+ spec (UKVCrash) model-checked with TLC; batched TLC trace validation of real recovery executions on "
@@ -76,7 +78,8 @@ check("C04",
 
 check("C18",
       "TLC exhausts JobMap.tla (histories of <=3 jobmap runs over 2-3 source keys with scripted per-item outcomes ok / fail / "
-      "omit-return-file / succeed-on-2nd-attempt, two argument versions, pre-populated, foreign-key and fresh destinations; "
+      "omit-return-file / killed-by-a-signal-after-writing-a-partial-return-file / succeed-on-2nd-attempt (every job has a second "
+      "command that always succeeds), two argument versions, pre-populated, foreign-key and fresh destinations; "
       "plain and vectorised jobs) for DestIsExactlySuccesses, ForeignKeysUntouched, NoReuseOfStaleOrFailed, "
       "AtMostOncePerValidInput, MustExecuteInvalid, RerunOnlyMissing.  Root paths of the TLC graph covering every abstract "
       "per-item situation class (+ seeded random paths) are replayed with the real jobmap() and real _molli_run "
@@ -90,19 +93,21 @@ check("C17",
       "Part 1: TLC exhausts JobBind.tla (every order of creating/using 3 driver instances with distinct executable, "
       "processor count and environment, <=6-7 operations) for NoCrossTalk and every (state, operation) pair is replayed on "
       "a harness-defined driver and on the real XTBDriver.  Part 2: TLC enumerates every command list of length 1..3 (4 in "
-      "the thorough tier) over 5 command kinds (named/unnamed, exit 0/non-zero, writing none/one/both requested files) and "
+      "the thorough tier) over 6 command kinds (named/unnamed, exit 0/non-zero/killed by a signal, writing none/one/both requested "
+      "files) x the forms of the optional JobInput fields (files / envars / return_files each given, explicitly empty or omitted) and "
       "computes, step by step as run_local does, the required result (executed prefix, captured names, returned files, exit "
       "status, no residue); each job is executed by the real _molli_run and its execution log, JobOutput (stdout/stderr "
       "content, files byte for byte, input hash), exit status, materialised text/binary inputs, environment override and "
       "scratch listing are compared with TLC's result.",
-      "bounded command alphabet; commands are sh scripts; return_files is a tuple; trusted: TLC, sh",
+      "bounded command alphabet; commands are sh scripts; trusted: TLC, sh",
       "TLA+ specs (JobBind, JobRun) model-checked with TLC; spec->code replay of every generated operation order / job",
       "DESIGN.md 4/C17", modules=("JobBind", "MCJobBind", "JobRun", "MCJobRun"))
 
 check("C05",
       "TLC exhausts MolEdit.tla (3-4 harness-created atom identities with fixed element/label incl. a duplicated label, "
       "library-created hydrogens and attachment points, <=2-3 live atoms; actions add_atom with/without charge, append_atom, "
-      "connect, append_bond with 0/1/2 foreign atoms, del_bond, del_atom by object/index/label/element incl. failing calls, "
+      "connect (also of a bonded pair: a second, parallel bond object), append_bond with 0/1/2 foreign atoms and of the reversed pair, "
+      "the batch forms append_bonds / extend_bonds, del_bond (of either of two parallel bond objects), del_atom by object/index/label/element incl. failing calls, "
       "remove_substituent, add_implicit_hydrogens, substructure translation, cloning) for Aligned, KeepsGiven, BondsInside, "
       "DeleteRemovesExactlyIncident, MovesExactlySelected, FailedIsNoOp.  Every (state, action) pair reached within the time "
       "budget is replayed on a real Molecule and a real Structure; after each call the identity-keyed observation (atom "
@@ -111,7 +116,7 @@ check("C05",
       "(dendrobine, benzene, dmf, ...; Molecule and Structure; extra atoms adopted, deleted atoms re-added as the same object, "
       "hydrogens added, substituents removed, a substructure translated) are validated event by event by TLC against the same "
       "actions (MolEditTrace).",
-      "small molecules only in direction A (bounds in the evidence); self-bonds/parallel bonds not generated; coordinates of library-placed "
+      "small molecules only in direction A (bounds in the evidence); self-bonds and more than two bonds per pair not generated; coordinates of library-placed "
       "hydrogens are not compared; quick tier covers the pair set within a time budget (seeded order, pairs partitioned among "
       "forked workers: about 90 % / 60 % of the two quick graphs)",
       "TLA+ spec (MolEdit) model-checked with TLC; spec->code replay of the transitions with identity-keyed projection",
@@ -119,7 +124,8 @@ check("C05",
 
 check("C06",
       "TLC exhausts MolHeap.tla (objects of the seven structure classes, copy routes construct / construct with the source's own "
-      "arrays as explicit arguments / pickle / deepcopy / upcast / concatenate / a | b / join / ensemble-from-molecule / "
+      "arrays as explicit arguments / pickle / deepcopy / upcast / concatenate / a | b (also with one operand without atoms) / join / "
+      "ensemble-from-molecule / "
       "conformer view, one or two mutations of any cell kind on either side, <=3 live "
       "objects) for NoSharedCell, Independent, CopyEqual, ViewWritesThrough.  Every (heap state, action) pair (quick: all 23 k, pairs partitioned among "
       "forked workers; thorough: within the budget) is replayed on real objects: a mutation bumps a counter stored in the real cell (attribute dict of object / "
